@@ -4,8 +4,9 @@ set -u
 patch="$1"; shift
 cd /repo || exit 2
 if ! git diff --quiet; then echo "/repo has uncommitted changes"; exit 2; fi
-git apply "$patch" || { echo "patch does not apply"; exit 2; }
-trap 'git -C /repo checkout -- . ' EXIT
+git apply "$patch" 2>/dev/null || patch -p1 -F3 -s < "$patch" || { echo "patch does not apply"; exit 2; }
+mkdir -p /tmp/seedev; cp /verif/known_findings.json /tmp/seedev/known_findings.json
+trap 'git -C /repo checkout -- . ; find /repo -name "*.orig" -o -name "*.rej" | xargs -r rm -f' EXIT
 for id in "$@"; do
   out=$(VERIF_ROOT=/tmp/seedev /verif/run "$id" "${TIER:-quick}" 2>&1); rc=$?
   echo "== $id rc=$rc: $(echo "$out" | grep -E 'VIOLATION|BUILD-FAILED|MACHINERY' | head -2 | cut -c1-200)"
